@@ -396,6 +396,9 @@ def geometry_evaluated(rep, repo, mod):
         return vv
     bad = None
     n = 0
+    genv = {}
+    if isinstance(getattr(mod, 'tree', None), ast.Module):
+        minieval.module_functions(mod.tree, genv)
     try:
         segs = []
         via_segs = []
@@ -407,7 +410,7 @@ def geometry_evaluated(rep, repo, mod):
                         continue
                     n += 1
                     pts = [f0] + list(rest)
-                    me = minieval.NS(points=pts, layer='M1', width=None)
+                    me = minieval.bind_class(minieval.NS(points=pts, layer='M1', width=None), dw, genv, skip=('__init__', 'wire_points', 'vias'))
                     for what, fdef, spec in (('wire_points', f_wp, spec_points), ('vias', f_v, spec_vias)):
                         try:
                             got = minieval.call_function(fdef, [me])
@@ -427,7 +430,7 @@ def geometry_evaluated(rep, repo, mod):
             wires = [minieval.NS(points=a, layer='M1', width=None, wire_points=spec_points(a), vias=spec_vias(a)),
                      minieval.NS(points=b, layer='M2', width='120', wire_points=spec_points(b), vias=spec_vias(b)),
                      minieval.NS(points=a, layer='M2', width=None, wire_points=spec_points(a), vias=spec_vias(a))]
-            net = minieval.NS(routed=wires)
+            net = minieval.bind_class(minieval.NS(routed=wires), dn, genv, skip=('__init__', 'wires', 'vias'))      # helper methods of the class are evaluated as written
             want_w = {}
             want_v = {}
             for w in wires:
@@ -443,8 +446,8 @@ def geometry_evaluated(rep, repo, mod):
                 if got != want and bad is None:
                     bad = (f'DefNet.{what}', [w.points for w in wires], got, want)
     except ModelError as e:
-        rep.note(f'C20.geometry: outside the evaluator subset ({e}); covered by the structural rules C20.none / C20.symmetry only')
-        return
+        # no verdict from the evaluation and no structural rule that decides the aggregation: undecided (exit 2), never a silent pass
+        raise ModelError(f'C20.geometry: DefWire / DefNet properties are outside the evaluator subset ({e})')
     ok = bad is None
     rep.ob('C20.geometry', f'evaluated on {n} routing lists / nets', ok, evals=n)
     if not ok:
